@@ -189,6 +189,14 @@ def main(argv=None):
                 return 1
             print(f"OK property={pid} replay={a.replay} (no violation)")
             return 0
+        # replay artefacts of earlier runs of this property are stale
+        import glob
+
+        for f in glob.glob(os.path.join(report.REPLAY_DIR, f"{pid}-*.json")):
+            try:
+                os.unlink(f)
+            except OSError:
+                pass
         if hasattr(mod, "prepare"):
             mod.prepare(ctx)
         if hasattr(mod, "main"):
